@@ -61,6 +61,7 @@ pub fn th_harness(prop: &'static str, h: crate::thworld::ThHarness) -> Harness {
             stats.transitions = sx.points;
             stats.max_depth = sx.max_points;
             stats.capped = sx.capped;
+            stats.bound_completed = Some(sx.bound_completed);
             stats.states = states;
             stats.outcomes = outcomes;
             stats.found = found;
@@ -214,6 +215,19 @@ fn c02(quick: bool) -> Vec<Harness> {
     cfg.max_ops = 3;
     cfg.errors = false;
     v.push(ops_harness("three-singles", "C02", cfg, bounds(d(9, 11), d(2, 3), 4)));
+
+    let mut cfg = Cfg::base("C02");
+    cfg.preset = vec![Kind::Pollable, Kind::PeerAddr];
+    cfg.kinds = vec![];
+    cfg.max_ops = 2;
+    v.push(ops_harness("readiness-stream+address", "C02", cfg, bounds(d(8, 10), d(2, 3), 4)));
+
+    let mut cfg = Cfg::base("C02");
+    cfg.preset = vec![Kind::SpliceTo, Kind::SendToVectored, Kind::OpenTemp];
+    cfg.kinds = vec![];
+    cfg.max_ops = 3;
+    cfg.errors = false;
+    v.push(ops_harness("splice+sendmsg+open", "C02", cfg, bounds(d(9, 11), d(2, 3), 4)));
     v
 }
 
@@ -575,7 +589,8 @@ fn c09(quick: bool) -> Vec<Harness> {
         RecvVectored, RecvFrom, RecvFromVectored, Send, SendZc, SendTo, SendToZc, SendVectored, SendVectoredZc,
         ReadPool, RecvPool, MultishotRead, MultishotRecv, Accept, AcceptNoAddr, MultishotAccept, OpenFile, Socket,
         Connect, Bind, LocalAddr, SockOpt, SetSockOpt, Statx, CreateDir, Rename, RemoveFile, Fsync, Truncate, Shutdown,
-        Pipe, WaitId, ReadLimited, OpenDirect, SocketDirect, PipeDirect, ToDirect,
+        Pipe, WaitId, ReadLimited, OpenDirect, SocketDirect, PipeDirect, ToDirect, Listen, PeerAddr, SyncData, FAdvise,
+        Allocate, MemAdvise, SpliceTo, SpliceFrom, SendToVectored, OpenTemp, Pollable,
     ];
     for k in kinds {
         let mut cfg = Cfg::base("C09");
@@ -629,7 +644,10 @@ fn c06(quick: bool) -> Vec<Harness> {
     let mut v = thops_set("C06", quick);
     let d = |q: usize, t: usize| if quick { q } else { t };
     use Kind::*;
-    let kinds = [ReadVec, WriteVec, ReadVectored2, RecvFrom, SendZc, SendVectoredZc, MultishotRead, MultishotAccept, Statx, Connect, Rename];
+    let kinds = [
+        ReadVec, WriteVec, ReadVectored2, RecvFrom, SendZc, SendVectoredZc, MultishotRead, MultishotAccept, Statx, Connect, Rename,
+        SendToVectored, PeerAddr, SpliceTo, OpenTemp, Pollable, RecvN, SendAllVectored,
+    ];
     for k in kinds {
         let mut cfg = drop_cfg("C06", vec![k]);
         cfg.report = vec!["C06"];
@@ -659,7 +677,9 @@ fn c01(quick: bool) -> Vec<Harness> {
         WriteVectoredTuple, Recv, RecvVectored, RecvFrom, RecvFromVectored, Send, SendZc, SendTo, SendToZc, SendVectored,
         SendVectoredZc, ReadPool, RecvPool, MultishotRead, MultishotRecv, Accept, AcceptNoAddr, MultishotAccept, OpenFile,
         Socket, Connect, Bind, LocalAddr, SockOpt, SetSockOpt, Statx, CreateDir, Rename, RemoveFile, Pipe, ToDirect, WaitId,
-        ReadLimited, ReadN, WriteAll, WriteAllVectored, SendAll,
+        ReadLimited, ReadN, WriteAll, WriteAllVectored, SendAll, Fsync, Truncate, Shutdown, Listen, PeerAddr, SyncData,
+        FAdvise, Allocate, MemAdvise, SpliceTo, SpliceFrom, SendToVectored, OpenTemp, RecvN, ReadNVectored,
+        SendAllVectored, Pollable,
     ];
     for k in kinds {
         let mut cfg = drop_cfg("C01", vec![k]);
